@@ -119,7 +119,10 @@ def gen_history(rng, length, stream="main"):
                 mode = "codegen" if mode == "cache" else "cache"
         ops.append(["transfer", mode])
     ops.append(["transfer", mode])
-    return {"stream": stream, "libs": libs, "step_ns": rng.choice([10**3, 10**6, 10**6, 10**9]), "ops": ops}
+    h = {"stream": stream, "libs": libs, "step_ns": rng.choice([10**3, 10**6, 10**6, 10**9]), "ops": ops}
+    if rng.random() < 0.2:
+        h["base_ns"] = FUTURE_NS       # every file (and the cache) stamped later than the wall clock
+    return h
 
 
 def gen_f1_history(rng):
@@ -174,6 +177,53 @@ def gen_sweep_history(key, base, mode, text=SWEEP_TEXT):
     return {"stream": "option-sweep", "libs": [], "step_ns": 10**6, "ops": ops}
 
 
+ITER_TEXT = """model M
+  Real x(start = 0);
+  Real z;
+  Real f;
+  Real g;
+  Real h;
+equation
+  der(x) = 10 + z;
+  f = 0;
+  g = 1;
+  f = (z-h);
+  h = g;
+end M;
+"""
+ITER_BASE = {"eliminate_constant_assignments": True, "factor_and_simplify_equations": True, "replace_constant_expressions": True,
+             "replace_constant_values": True, "detect_aliases": True}
+FUTURE_NS = 2_200_000_000 * 10**9       # year 2039: later than any wall clock this runs under
+
+
+def gen_libedit_history(rng, variant):
+    """Fixed part of every run: the model really uses a class of a library folder, and that file is edited.
+    variants: plain library folder; nested file; library directory reached through a symbolic link inside the
+    model folder (os.walk(followlinks=True)); all modification times in the future."""
+    lib, rel = 1, "Lib0.mo"
+    pre = []
+    libs = [1]
+    if variant == "nested":
+        rel = "sub/deep/Lib0.mo"
+    if variant == "second-folder":
+        lib, libs = 2, [1, 2]
+    if variant == "symlink":
+        lib, libs = 2, []
+        pre = [["symlink", 0, "linked", 2]]
+    la = _lib_text(rng)
+    lb = _lib_text(rng)
+    while lb == la:
+        lb = _lib_text(rng)
+    ops = pre + [["write", 0, "M.mo", _main_text(rng, True), 1], ["write", lib, rel, la, 1],
+                 ["options", G.gen_options(rng, heavy=0.2)], ["transfer", "cache"], ["transfer", "cache"],
+                 ["write", lib, rel, lb, rng.choice([1, 2, 1000])], ["transfer", "cache"], ["transfer", "cache"],
+                 ["write", lib, rel, la, 1], ["transfer", "cache"]]
+    h = {"stream": "library-edit:" + variant, "libs": libs, "step_ns": 10**6, "ops": ops}
+    if variant == "future":
+        h["base_ns"] = FUTURE_NS
+    return h
+
+
 def gen_f2_history(rng):
     """C20-F2: a CachedModel loaded from the shared libraries is alive while they are rebuilt."""
     a = "model M\n  parameter Real p = 1;\n  Real x;\nequation\n  x = %s*p;\nend M;\n"
@@ -186,7 +236,7 @@ def gen_f2_history(rng):
 def run_history(ctx, hist, drv, hid):
     """Replays a history on the real code; oracle after every transfer; then the model."""
     root = os.path.join(ctx.scratch, "h%05d" % hid)
-    w = G.CacheWorld(root, step_ns=hist.get("step_ns", 10**6), version_marker=True)
+    w = G.CacheWorld(root, step_ns=hist.get("step_ns", 10**6), version_marker=True, base_ns=hist.get("base_ns"))
     libs = list(hist["libs"])
     opts = {}
     kept = []           # models deliberately kept alive (F2 stream only)
@@ -202,6 +252,8 @@ def run_history(ctx, hist, drv, hid):
                 w.write(f, rel, text, dt)
                 last_text[(f, rel)] = text
                 ref_key = None
+            elif k == "symlink":
+                w.symlink(op[1], op[2], op[3])
             elif k == "touch":
                 cands = sorted(p for p in last_text if p[0] == op[1])
                 if cands:
@@ -224,7 +276,7 @@ def run_history(ctx, hist, drv, hid):
                 had_cache = w.cache_stat() is not None
                 ok, m, msg, kind = w.transfer(o, libs)
                 case = {"stream": hist["stream"], "libs": hist["libs"], "step_ns": hist.get("step_ns", 10**6),
-                        "ops": hist["ops"][:i + 1]}
+                        "base_ns": hist.get("base_ns"), "ops": hist["ops"][:i + 1]}
                 ctx.case({"history": hid, "step": i, "ops": [x[0] for x in hist["ops"][:i + 1]]},
                          nontrivial=had_cache, key=[ctx.seed, hist["stream"], hid, i])
                 ctx.count("decision:" + kind)
@@ -255,7 +307,7 @@ def run_history(ctx, hist, drv, hid):
                 if df:
                     ctx.violation("transfer_model returned a model that differs from a fresh compile of the current sources "
                                   "(decision: %s): %s" % (kind, df[0]), case, expected="fresh compile", observed=df, kind="history")
-                    if hist["stream"] in ("main", "option-sweep", "thorough-codegen"):
+                    if hist["stream"] in ("main", "option-sweep", "thorough-codegen") or hist["stream"].startswith("library-edit"):
                         return
             else:
                 raise HarnessError("unknown op " + str(k))
@@ -300,6 +352,11 @@ def run(ctx):
         hid += 1
         ctx.count("corpus")
         run_history(ctx, h, drv, hid)
+    # fixed part of every run: an edit of a library class the model uses (four ways of reaching the file)
+    for variant in (["plain", "symlink", "future", "nested"] if quick else ["plain", "symlink", "future", "nested", "second-folder"] * 4):
+        hid += 1
+        ctx.count("stream:library-edit:" + variant)
+        run_history(ctx, gen_libedit_history(ctx.rng, variant), drv, hid)
     # known-finding streams, kept apart from the main stream
     for _ in range(2 if quick else 12):
         hid += 1
@@ -314,6 +371,8 @@ def run(ctx):
     sweep = [(k, SWEEP_BASES[j % 2], "cache", SWEEP_TEXT) for j, k in enumerate(G.FLIP_KEYS)]
     if quick:
         sweep = ctx.rng.sample(sweep, 4)
+    # an option that is not among pymoca's defaults, going from absent to True and back
+    sweep.insert(0, ("iterative_simplification", ITER_BASE, "cache", ITER_TEXT))
     sweep.insert(0, ("expand_mx", SWEEP_BASES[1], "codegen", SWEEP_SMALL))
     if not quick:
         sweep += [(k, SWEEP_BASES[1], "codegen", SWEEP_SMALL) for k in ("expand_vectors", "eliminate_constant_assignments", "detect_aliases")]
